@@ -44,7 +44,7 @@ fn dest_states() -> Vec<(&'static str, Vec<Entry>)> {
 
 pub fn scenarios() -> Vec<Scenario> {
     let mut v = vec![];
-    let base = || vec![Entry::file("v1", "valid one").mtime(1_300_000_000, 1), Entry::file("v2", "valid two").mtime(1_300_000_001, 2), Entry::dir("sdir"), Entry::file("sdir/in", "inside").mtime(1_300_000_002, 3)];
+    let base = || vec![Entry::file("v1", "valid one").mtime(1_300_000_000, 1), Entry::file("v2", "valid two").mtime(1_300_000_001, 2), Entry::dir("sdir"), Entry::file("sdir/in", "inside").mtime(1_300_000_002, 3), Entry::link("ldir", "sdir"), Entry::link("lldir", "ldir")];
     for d in drivers() {
         for (dn, dstate) in dest_states() {
             let mk = |name: &str, extra: Vec<Entry>, args: Vec<String>| {
@@ -74,6 +74,13 @@ pub fn scenarios() -> Vec<Scenario> {
             for (pn, a) in positions("sdir") {
                 v.push(mk(&format!("dir-without-r-{}", pn), vec![], a));
             }
+            for (pn, a) in positions("ldir") {
+                v.push(mk(&format!("link-to-dir-without-r-{}", pn), vec![], a.clone()));
+                let mut a2 = vec!["-L".to_string()];
+                a2.extend(a);
+                v.push(mk(&format!("link-to-dir-without-r-deref-{}", pn), vec![], a2));
+            }
+            v.push(mk("link-chain-to-dir-without-r", vec![], s(&["lldir", "dst"])));
             v.push(mk("several-sources-nondir-dest", vec![], s(&["v1", "v2", "dst"])));
             v.push(mk("several-sources-nondir-dest-r", vec![], s(&["-r", "v1", "sdir", "dst"])));
             v.push(mk("dir-onto-file", vec![], s(&["-r", "sdir", "dst"])));
